@@ -44,6 +44,13 @@ def run(ctx):
             sc = random_score(ctx.rng, 12 if ctx.rng.random() < .5 else 5, ctx.rng.choice([20, 60, 200]),
                               pitches=(60, 61) if ctx.rng.random() < .7 else (60,))
             cases.append((len(cases), sc, ctx.rng.choice(vls), ctx.rng.random() < .5))
+    if ctx.thorough and not ctx.replay:
+        from harness import fixtures
+        for kind in ("raw", "quantised"):
+            for sc in fixtures.slices(kind):
+                for vl in (get_default_note_values(), [12, 24], [6]):
+                    for ne in (False, True):
+                        cases.append((len(cases), {k: sc[k] for k in ("notes", "extras", "dur")}, vl, ne))
     obs = pmap(execute, cases, chunk=400)
     for i, o in enumerate(obs):
         o["id"] = i
